@@ -13,6 +13,7 @@ EVID = os.path.join(VERIF, "evidence")
 NCPU = 16
 
 PANIC, ERR = -999, -998
+ALL_FAMILIES = ["countmin", "hashes", "bloom", "freq", "theta", "hll", "cpc", "tdigest"]
 FORBIDDEN = re.compile(r"\b(Admitted|admit|Axiom|Axioms|Parameter|Parameters|Conjecture|Conjectures|"
                        r"Unset\s+Guard|bypass_check|Admit\s+Obligations|type-in-type|impredicative-set|"
                        r"Unset\s+Universe\s+Checking|Unset\s+Positivity)\b")
@@ -189,10 +190,11 @@ def print_assumptions(pid):
 
 
 # ------------------------------------------------------------------ harness
-def harness_build(profiles=("debug", "release")):
+def harness_build(profiles=("debug", "release"), families=None):
     logs = []
+    feats = ",".join("fam_" + f for f in (families or ALL_FAMILIES))
     for p in profiles:
-        cmd = "cargo build --offline" + (" --release" if p == "release" else "")
+        cmd = "cargo build --offline --features %s" % feats + (" --release" if p == "release" else "")
         rc, out = sh(cmd, cwd=HARNESS, timeout=1800)
         logs.append(out)
         if rc != 0:
@@ -280,24 +282,35 @@ def run_shard(args):
 OCAML = os.path.join(VERIF, "ocaml")
 
 
-def build_driver():
-    """extracts the models (ExtrOcamlBasic + ExtrOCamlFloats + ExtrOCamlInt63 only) and links the OCaml driver"""
-    drv = os.path.join(OCAML, "driver")
-    deps = [os.path.join(OCAML, "Extract.v"), os.path.join(OCAML, "driver.ml")]
+def build_driver(fams, workdir):
+    """extracts the models of the given families (ExtrOcamlBasic + ExtrOCamlFloats + ExtrOCamlInt63
+    only) and links the OCaml driver into workdir/driver.  fams: list of family modules."""
+    os.makedirs(workdir, exist_ok=True)
+    gen = os.path.join(workdir, "gen")
+    os.makedirs(gen, exist_ok=True)
+    ex = open(os.path.join(OCAML, "Extract.v.in")).read()
+    reqs = "".join("From DS Require Corr.%s.\n" % f.CORR for f in fams)
+    table = ";\n    ".join("(%d, (Corr.%s.run, Corr.%s.oracles))" % (f.FAMNUM, f.CORR, f.CORR) for f in fams)
+    ex = ex.replace("@@REQUIRES@@", reqs).replace("@@FAMILIES@@", table)
+    exf = os.path.join(workdir, "Extract.v")
+    drv = os.path.join(workdir, "driver")
+    deps = [os.path.join(OCAML, "Extract.v.in"), os.path.join(OCAML, "driver.ml")]
     for sub in ("Base", "Gen", "Model", "Corr"):
         d = os.path.join(COQ, "theories", sub)
         deps += [os.path.join(d, f) for f in os.listdir(d) if f.endswith(".vo")]
-    if os.path.exists(drv) and all(os.path.getmtime(x) <= os.path.getmtime(drv) for x in deps):
+    if os.path.exists(exf) and open(exf).read() == ex and os.path.exists(drv) and \
+            all(os.path.getmtime(x) <= os.path.getmtime(drv) for x in deps):
         return True, ""
-    gen = os.path.join(OCAML, "gen")
-    os.makedirs(gen, exist_ok=True)
-    os.makedirs(WORK, exist_ok=True)
-    rc, out = sh("coqc -Q ../../coq/theories DS -o %s ../Extract.v" % os.path.join(WORK, "Extract.vo"), cwd=gen, timeout=900)
+    open(exf, "w").write(ex)
+    rc, out = sh("coqc -Q %s DS -o %s ../Extract.v" % (os.path.join(COQ, "theories"), os.path.join(workdir, "Extract.vo")), cwd=gen, timeout=900)
     if rc != 0:
         return False, out
+    shutil.copy(os.path.join(OCAML, "driver.ml"), os.path.join(workdir, "driver.ml"))
+    if os.path.exists(drv):
+        os.remove(drv)
     rc, out2 = sh("ocamlfind ocamlopt -O2 -rectypes -thread -package coq-core.kernel -linkpkg -I gen gen/model.mli gen/model.ml "
-                  "driver.ml -o driver 2>&1 | grep -v WARNING", cwd=OCAML, timeout=900)
-    if not os.path.exists(drv) or os.path.getmtime(drv) < max(os.path.getmtime(x) for x in deps):
+                  "driver.ml -o driver 2>&1 | grep -v WARNING", cwd=workdir, timeout=900)
+    if not os.path.exists(drv):
         return False, out + out2
     return True, out + out2
 
@@ -315,12 +328,12 @@ def write_case_obs(cases, cf, of):
 
 
 def run_driver_shard(args):
-    famnum, cases, mask, oracle_ids, base = args
+    famnum, cases, mask, oracle_ids, base, drv = args
     cf, of = base + ".cases", base + ".obs"
     write_case_obs(cases, cf, of)
     m = "all" if mask is None else ",".join(str(x) for x in mask)
     o = ",".join(str(x) for x in oracle_ids) if oracle_ids else "-"
-    rc, out = sh([os.path.join(OCAML, "driver"), str(famnum), m, o, cf, of], timeout=3000)
+    rc, out = sh([drv, str(famnum), m, o, cf, of], timeout=3000)
     if rc != 0:
         return {"error": out[-3000:]}
     res = {}
@@ -351,7 +364,8 @@ def run_model(fam, cases, mask, oracles, workdir, name, nshards=NCPU, coq_sample
         shards[j].append(i)
         loads[j] += size(cases[i])
     oids = [fam.ORACLES[o] for o in oracles]
-    jobs = [(fam.FAMNUM, [cases[i] for i in idxs], mask, oids, os.path.join(workdir, "%s_sh%d" % (name, j)))
+    drv = os.path.join(workdir, "driver")
+    jobs = [(fam.FAMNUM, [cases[i] for i in idxs], mask, oids, os.path.join(workdir, "%s_sh%d" % (name, j)), drv)
             for j, idxs in enumerate(shards) if idxs]
     with ThreadPoolExecutor(max_workers=NCPU) as ex:
         results = list(ex.map(run_driver_shard, jobs))
@@ -382,7 +396,7 @@ def model_diff(fam, case, workdir, name):
     """first difference between the model's and the crate's observations of one case"""
     base = os.path.join(workdir, name + "_one")
     write_case_obs([case], base + ".cases", base + ".obs")
-    rc, out = sh([os.path.join(OCAML, "driver"), str(fam.FAMNUM), "all", "-", base + ".cases", base + ".obs", "diff", "0"], timeout=600)
+    rc, out = sh([os.path.join(workdir, "driver"), str(fam.FAMNUM), "all", "-", base + ".cases", base + ".obs", "diff", "0"], timeout=600)
     return out.strip()[:4000]
 
 
